@@ -4,6 +4,7 @@ import Nstd.Life.LemmasBlk
 import Nstd.Life.LemmasAssign
 import Nstd.Life.LemmasStableSharp
 import Nstd.Life.LemmasClient
+import Nstd.Life.LemmasClient2
 /-
   Property theorems for C05: elements of List, Map, MultiMap, HashMap, HashSet, PoolList and PoolMap
   never move while they live; swap hands the elements over without relocating them; the pool
@@ -245,5 +246,31 @@ example : ((run (init per4) stableOps).nodes ⟨.P, 0⟩).items.head? = ((run (r
     ((run (init per4) stableOps).nodes ⟨.P, 0⟩).items.length = 1 ∧
     ((run (run (init per4) stableOps) clientOps).nodes ⟨.P, 0⟩).items.length = 2 ∧
     ((run (run (init per4) stableOps) (clientOps ++ [.pRemove 0 0])).nodes ⟨.P, 0⟩).items.length = 1 := by decide +kernel
+
+/-- what DOES end the life of a pointer, besides the removal of the element itself (`removes_list_remove` and its siblings):
+    `clear()` of the container that owns it, and the destructor of that container (here: `new`, destruction + re-construction of
+    the variable) - each removes exactly the elements of that container, those of every other container live on. -/
+theorem clear_and_destruction_remove_own_elements (p : Per) (ops : List Op) (c0 : Var) (hv : c0.valid = true) (c : Var) (it : Item) :
+    (Op.removes (run (init p) ops) (.clear c0) c it ↔ c = c0) ∧ (Op.removes (run (init p) ops) (.new c0) c it ↔ c = c0) :=
+  ⟨removes_clear (reach_ok p ops).1 (Ops.allAlive_reach p ops) c0 hv c it,
+   removes_new (reach_ok p ops).1 (Ops.allAlive_reach p ops) c0 hv c it⟩
+
+/-- C05 / C04, assignment from a sub-object: `m.insert(key, *m.find(key))`, `h.append(key, *h.find(key))` (Map, HashMap) - the
+    argument is the value object of the very element the call overwrites.  In every reachable state the step performs exactly ONE
+    event, the self-assignment `value = value` of that value object, and changes nothing: memory, item lists and blocks are as
+    before, every pointer stays valid.  So with a value type whose self-assignment is the identity (the nstd containers after
+    repair D2: `assign_self_noop`) `Map<K, List<T>>::insert(key, *map.find(key))` moves and copies nothing; a value type that
+    re-allocates on self-assignment (seeded change C05-4) breaks exactly this composition, which the correspondence run shows
+    on the real `List` (`L.assign v v`). -/
+theorem insert_own_value_is_self_assignment (p : Per) (ops : List Op) (c : Var) (hc : c.k = .M ∨ c.k = .H) (pos : Option Nat)
+    (i kp : Nat) (it : Item) (hi : ((run (init p) ops).nodes c).items[i]? = some it) (hkey : keyOf (run (init p) ops) it = some kp)
+    (st' : State) (he : exec (run (init p) ops) (.put c pos (some (.ext kp)) (some (.item c i 1))) = some st') :
+    st'.log = (run (init p) ops).log ++ [.assign (it.loc 1) (it.loc 1)] ∧ st'.mem = (run (init p) ops).mem ∧
+      st'.nodes = (run (init p) ops).nodes ∧ st'.blk = (run (init p) ops).blk :=
+  put_own_value_self_assign (reach_ok p ops).1 (Copy.keysOk_reach p ops) c hc pos i kp it hi hkey he
+
+/-- non-vacuity: in `stableOps` the Map holds key 3; inserting (3, value of item 0) is executable -/
+example : ((run (init per4) stableOps).nodes ⟨.M, 0⟩).items.length = 1 ∧
+    (exec (run (init per4) stableOps) (.put ⟨.M, 0⟩ none (some (.ext 3)) (some (.item ⟨.M, 0⟩ 0 1)))).isSome = true := by decide +kernel
 
 end Nstd.Life
